@@ -353,6 +353,8 @@ class Interp(object):
             return self.builtins[name]
         if self.ctx.spec and self.registry is not None and name in self.registry.spec_fns:
             return self.registry.spec_fns[name]
+        if self.ctx.spec and name in self.ctx.ghost.get('spec_vars', {}):
+            return self.ctx.ghost['spec_vars'][name]
         self.raise_builtin('NameError', 'wd:name[%s]' % name)
 
     # ------------------------------------------------------------------ truth
@@ -861,6 +863,8 @@ class Interp(object):
                 idx = simp(n + idx)
             if not self.wd('index', src, z3.And(zint(idx) >= 0, zint(idx) < n)):
                 self.raise_builtin('IndexError', 'wd:index[%s]' % src)
+            if v.codec is not None:
+                return v.codec.decode(self, v.arr[zint(idx)])
             return v.arr[zint(idx)]
         if isinstance(v, PyDict):
             return self.dict_get(v, idx, src)
